@@ -109,6 +109,16 @@
 //     a later help text replaced, reported through the logger only). Clashes
 //     inside one scope, without scope labels or with a View that would match
 //     two instruments stay "no panic only".
+//   - twins: instruments with the SAME instrument name and unit but another
+//     data shape (monotonic sum / other sum / gauge / histogram), in another
+//     scope or in the same one (the SDK keeps them apart by kind; the oracle
+//     finds the ManualReader's metric by scope, name AND data shape). Whenever
+//     their accepted exported names do not meet (the _total rule separates
+//     jobs_total from jobs; jobs_total + unit gives jobs_seconds_total vs
+//     jobs_total_seconds) they are STRONG cases: each exposed with its own
+//     name, type and values. Where the names coincide (WithoutCounterSuffixes,
+//     counter jobs_total vs gauge jobs_total without unit) it is a conflict as
+//     above.
 //   - concurrent FIRST scrapes (concurrent cases): on 2..6 fresh exporters all
 //     measurements are recorded and then 2..8 Gather calls are released
 //     together (with generated start perturbations) before any other scrape of
@@ -166,7 +176,7 @@ func TestScrapeModel(t *testing.T) {
 		Property: "C18", Check: "scrape_model",
 		Rule: "a registry: exporter options x {UTF-8, legacy} scheme, resource, 1..3 scopes (names may repeat; attributes from a pool with the reserved labels otel_scope_name/version, keys sanitising to them, ordinary and mutually colliding keys), 1..6 instruments (14 kinds; histograms explicit-bucket or base-2 exponential with MaxSize {160,20,4} x MaxScale {20,3,0,-2} and positive/negative/zero values) with grammar names biased to total/unit words, all table units + unknown ones, one (often colliding) key set with 1..5 tuples, exact measurements (some in sampled span contexts, with a View-filtered attribute that becomes the exemplar's, short or over-long), optionally a scrape before the exporter is registered and a second never-registered exporter scraped in between, 1..3 sequential scrapes each compared with a ManualReader on the same provider; " +
 			"non-trivial = some instrument name contains 'total' or a unit word, or attribute keys collide after sanitisation under the legacy scheme; distinct = distinct case encodings",
-		Quick: 4000, Thorough: 40000,
+		Quick: 3000, Thorough: 40000,
 		Gen: genCase(false, 20), Run: runSeq,
 	})
 }
@@ -176,7 +186,7 @@ func TestConcurrentScrapes(t *testing.T) {
 		Property: "C18", Check: "concurrent_scrapes",
 		Rule: "the same registries (half of them with conflicting families across scopes); first 2..8 concurrent FIRST scrapes on each of 2..6 fresh exporters after all measurements, then the registry scraped by 2..4 goroutines (1..3 Gather calls each) concurrently with 1..3 measuring goroutines, on 1..3 fresh exporters, under the race detector; then one quiescent scrape compared exactly; " +
 			"non-trivial = every case (>= 2 concurrent scrapes); distinct = distinct case encodings",
-		Quick: 1200, Thorough: 12000,
+		Quick: 800, Thorough: 12000,
 		Gen: genCase(true, 50), Run: runConc,
 		Repeat: 20,
 	})
